@@ -1,0 +1,48 @@
+//! Native, injectable replacements for the JavaScript host functions (feature `beff_verif` only).
+use beff_core::diag::DiagnosticInformation;
+use beff_core::wasm_diag::WasmDiagnostic;
+use std::cell::RefCell;
+
+pub trait Host {
+    fn read_file_content(&mut self, file_name: &str) -> Option<String>;
+    fn resolve_import(&mut self, current_file: &str, specifier: &str) -> Option<String>;
+    fn emit_diagnostic(&mut self, json: String);
+}
+
+thread_local! {
+    static HOST: RefCell<Option<Box<dyn Host>>> = const { RefCell::new(None) };
+}
+
+pub fn set_host(h: Option<Box<dyn Host>>) -> Option<Box<dyn Host>> {
+    HOST.with(|c| std::mem::replace(&mut *c.borrow_mut(), h))
+}
+
+fn with_host<T>(f: impl FnOnce(&mut dyn Host) -> T) -> T {
+    HOST.with(|c| {
+        let mut b = c.borrow_mut();
+        f(b.as_mut().expect("beff_verif: no host installed").as_mut())
+    })
+}
+
+pub(crate) fn read_file_content(file_name: &str) -> Option<String> {
+    with_host(|h| h.read_file_content(file_name))
+}
+pub(crate) fn resolve_import(current_file: &str, specifier: &str) -> Option<String> {
+    with_host(|h| h.resolve_import(current_file, specifier))
+}
+pub(crate) fn print_errors(errors: &[DiagnosticInformation]) {
+    let v = WasmDiagnostic::from_diagnostics(errors);
+    let v = serde_json::to_string(&v).expect("should be able to serialize diagnostics");
+    with_host(|h| h.emit_diagnostic(v))
+}
+
+pub fn bundle_to_string(parser_entry_point: &str, settings: &str) -> Option<String> {
+    crate::bundle_to_string_inner(crate::parse_entrypoints(parser_entry_point, settings)).ok()
+}
+pub fn bundle_to_diagnostics(parser_entry_point: &str, settings: &str) -> String {
+    let v = crate::bundle_to_diagnostics_inner(crate::parse_entrypoints(parser_entry_point, settings));
+    serde_json::to_string(&v).expect("should be able to serialize diagnostics")
+}
+pub fn update_file_content(file_name: &str, content: &str) {
+    crate::update_file_content_inner(file_name, content)
+}
